@@ -364,6 +364,8 @@ def replayLine (s : DState) (op : String) (mid : Nat) (args : List String) (orc 
              ("symdiff", ks (SetAlg.symmetricDifference a b)), ("disjoint", bit (SetAlg.isDisjoint a b)),
              ("subset", bit (SetAlg.isSubset a b)), ("superset", bit (SetAlg.isSuperset a b)), ("eq", bit (SetAlg.eq a b)),
              ("panic", "-")]
+  | "fentry", [k, kid, raw, inserting] => nat k fun k => nat kid fun kid => needMap fun m =>
+      finF (.ok (Map.entryFused m k kid (raw == "1") (inserting == "1")))
   | "drop", [] => needMap fun m =>
       .ok (delMap s mid) [("drop", fmtIds (Map.dropAll m).dropped), ("df", toString (Map.dropAll m).frees)]
   | "forget", [] => .ok (delMap s mid) []
